@@ -107,7 +107,8 @@ Record wopts := mkWopts {
   wo_fit : bool;        (* fit_to_screen *)
   wo_dims : bool;       (* video_width and video_height both given *)
   wo_lang : tree;       (* write(force=..) / write(lang=..): TNone or TStr *)
-  wo_pos : option Z     (* SinglePositioning: code of default_positioning *)
+  wo_pos : option Z;    (* SinglePositioning: code of default_positioning *)
+  wo_inline : bool      (* DFXPWriter(write_inline_positioning=True) *)
 }.
 
 Definition setbit (c : Z) (bit : Z) (b : bool) : Z := if b then Z.setbit c bit else Z.clearbit c bit.
@@ -272,6 +273,11 @@ Definition lang_code (cl : tree) : option Z :=
 Definition dfxp_codes (langs : list (tree * tree)) : list scode :=
   flat_map (fun kv => (true, lang_code (snd kv)) :: flat_map cap_codes (telems (snd kv))) langs.
 
+(* DFXPWriter.write, set level (the inline-positioning repair): `if self.write_inline_positioning and self.relativize and
+   caption_set.layout_info: caption_set.layout_info = caption_set.layout_info.as_percentage_of(..)` - before the languages,
+   relativized only, nothing assigned otherwise.  c = the code the set-level slot holds at that moment *)
+Definition inline_code (o : wopts) (c : option Z) : list scode := if wo_inline o then [(true, c)] else [].
+
 (* SinglePositioning: the DFXP phase sees a copy in which every slot (of a non-empty language) holds default_positioning *)
 Definition single_codes (pos : option Z) (langs : list (tree * tree)) : list scode :=
   flat_map (fun kv => (true, match telems (snd kv) with [] => None | _ => pos end)
@@ -350,7 +356,7 @@ Record plan := mkPlan {
 Definition make_plan (k : Z) (o : wopts) (open : bool) (last : tree) (t : tree) : plan :=
   if k =? W_DFXP then
     let langs := dfxp_langs o t in
-    let (sl, e) := plan_slots o (dfxp_codes langs) in
+    let (sl, e) := plan_slots o (inline_code o (tcode (tfield t 3)) ++ dfxp_codes langs) in
     match e with
     | Some _ => mkPlan sl e open last []
     | None =>
@@ -360,7 +366,7 @@ Definition make_plan (k : Z) (o : wopts) (open : bool) (last : tree) (t : tree) 
   else if k =? W_SINGLE then
     (* the DFXP part sees a copy in which every slot holds default_positioning *)
     let langs := dfxp_langs o t in
-    let (sl, e) := plan_slots o (single_codes (wo_pos o) langs) in
+    let (sl, e) := plan_slots o (inline_code o (wo_pos o) ++ single_codes (wo_pos o) langs) in
     match e with
     | Some _ => mkPlan sl e open last []
     | None =>
@@ -402,6 +408,8 @@ Definition cap_slots (st : store) (cap : val) : list slot :=
 
 Definition dfxp_slots (st : store) (langs : list (val * val)) : list slot :=
   flat_map (fun kv => (snd kv, 1, false) :: flat_map (cap_slots st) (elems st (snd kv))) langs.
+
+Definition inline_slot (o : wopts) (s : val) : list slot := if wo_inline o then [(s, 3, false)] else [].
 
 (* set_layout_info(lang, f(get_layout_info(lang))): for an empty language get_layout_info is None, so None is assigned *)
 Definition sami_slots (st : store) (s : val) : list slot :=
@@ -573,7 +581,7 @@ Definition write (c : cfg) (k : Z) (o : wopts) (i : winst) (st : store) (s : val
         mkWres st1 (mkWinst (wi_open i0) (wi_last i0) gl) (Ok (mkOut [] t)) [] 1
       else if k =? W_DFXP then
         let p := make_plan k o (wi_open i0) (wi_last i0) t in
-        let slots := dfxp_slots st1 (sel_langs st1 s1 (keys_of (dfxp_langs o t))) in
+        let slots := inline_slot o s1 ++ dfxp_slots st1 (sel_langs st1 s1 (keys_of (dfxp_langs o t))) in
         let (st2, lg) := apply_slots st1 slots (p_slots p) [] in
         match p_err p with
         | Some e => mkWres st2 i0 (Err e) lg 1
@@ -604,7 +612,7 @@ Definition write (c : cfg) (k : Z) (o : wopts) (i : winst) (st : store) (s : val
         | None => mkWres st3 i0 (Err EOutOfFuel) lg3 1
         | Some (st4, s2) =>
             let p := make_plan k o (wi_open i0) (wi_last i0) t in
-            let slots := dfxp_slots st4 (sel_langs st4 s2 (keys_of (dfxp_langs o t))) in
+            let slots := inline_slot o s2 ++ dfxp_slots st4 (sel_langs st4 s2 (keys_of (dfxp_langs o t))) in
             let (st5, lg5) := apply_slots st4 slots (p_slots p) lg3 in
             match p_err p with
             | Some e => mkWres st5 i0 (Err e) lg5 2
